@@ -16,7 +16,7 @@ theorem enterState_lists (O : List Nat) (s : CSt) :
   | false =>
     rw [enterState_nostart O s hst]
     have h := HeapExt.addfrontAll O s.states.length O
-      { (s.newBlock none).2 with states := s.states ++ [s.next] } (fun _ h => h)
+      { (s.newBlock none).2 with states := s.states ++ [s.next] } (fun _ h => h) (fun _ => by simp)
     exact ⟨h.ret_eq, h.brk_eq, h.cont_eq⟩
 
 theorem skip_spec (l c : Bool) : CSpec (compile .skip) l c := by
